@@ -69,6 +69,8 @@ def show(v, depth=0):
                                                  ''.join(' if ' + show(c) for c in v[5]))
     if k == 'opaque':
         return v[1]
+    if k == 'res':
+        return '{}@{}'.format(v[1], v[2])
     if k == 'accum':
         return 'accumulate({} per element of {})'.format(show(v[3]), show(v[2]))
     if k == 'comp':
@@ -118,8 +120,9 @@ class PathState:
 class Walker:
     """Enumerates paths through a statement list."""
 
-    def __init__(self, facts, loop_var=None, class_of=None, max_paths=4000):
+    def __init__(self, facts, loop_var=None, class_of=None, max_paths=40000, name_results=False):
         self.facts = facts
+        self.name_results = name_results
         self.loop_var = loop_var
         self.max_paths = max_paths
         self.n_paths = 0
@@ -410,6 +413,7 @@ class Walker:
                         s2 = st.clone()
                         self.assume(first, pol, s2)
                         s2.conds.append((first, pol, test_node))
+                        s2.events.append(('cond', first, pol, test_node))
                         if pol:
                             out.extend(self.block(then_body, s2, done))
                         else:
@@ -421,6 +425,7 @@ class Walker:
                         s2 = st.clone()
                         self.assume(first, pol, s2)
                         s2.conds.append((first, pol, test_node))
+                        s2.events.append(('cond', first, pol, test_node))
                         if pol:
                             out.extend(self.fork_sym(rest_t, test_node, s2, done, then_body, else_body))
                         else:
@@ -436,10 +441,12 @@ class Walker:
                 s2 = st.clone()
                 s2.fact(test[2])['eq'] = elt
                 s2.conds.append((('cmp', '==', test[2], elt), True, test_node))
+                s2.events.append(('cond', ('cmp', '==', test[2], elt), True, test_node))
                 out.extend(self.block(then_body, s2, done))
             s2 = st.clone()
             self.assume(test, False, s2)
             s2.conds.append((test, False, test_node))
+            s2.events.append(('cond', test, False, test_node))
             out.extend(self.block(else_body, s2, done))
             return out
         for pol, body in ((True, then_body), (False, else_body)):
@@ -449,6 +456,7 @@ class Walker:
             if d is None:
                 self.assume(test, pol, s2)
                 s2.conds.append((test, pol, test_node))
+                s2.events.append(('cond', test, pol, test_node))
             out.extend(self.block(body, s2, done))
         return out
 
@@ -530,10 +538,14 @@ class Walker:
 
     def assign(self, tgt, v, st, node):
         if isinstance(tgt, ast.Name):
+            if self.name_results and v[0] in ('call', 'mcall', 'callv', 'ctx'):
+                v = ('res', tgt.id, getattr(node, 'lineno', 0), v)
             st.env[tgt.id] = v
         elif isinstance(tgt, (ast.Tuple, ast.List)):
             n = len(tgt.elts)
             star = [i for i, e in enumerate(tgt.elts) if isinstance(e, ast.Starred)]
+            if self.name_results and v[0] in ('call', 'mcall', 'callv'):
+                v = ('res', '_'.join(e.id for e in tgt.elts if isinstance(e, ast.Name)), getattr(node, 'lineno', 0), v)
             for i, e in enumerate(tgt.elts):
                 if v[0] in ('tuple', 'list') and not star and len(v[1]) == n:
                     self.assign(e, v[1][i], st, node)
@@ -593,6 +605,9 @@ class Walker:
                     and b.value.func.attr in ('extend', 'append') and isinstance(b.value.func.value, ast.Name)
                     and len(b.value.args) == 1 and b.value.func.value.id in st.env):
                 accs.setdefault(b.value.func.value.id, []).append((b.value.func.attr, b))
+            if (isinstance(b, ast.AugAssign) and isinstance(b.op, ast.Add) and isinstance(b.target, ast.Name)
+                    and b.target.id in st.env):
+                accs.setdefault(b.target.id, []).append(('extend', b))
         for s in live + [s for s in inner_done if s.end in ('continue', 'break')]:
             broke = s.end in ('continue', 'break')
             s.end = None
@@ -608,6 +623,8 @@ class Walker:
                     for ev in s.events:
                         if ev[0] == 'mcall' and ev[5] is bnode:
                             elem = ev[3][0]
+                        if ev[0] == 'aug' and ev[4] is bnode:
+                            elem = ev[3]
                     if elem is not None:
                         s.env[an] = ('accum', st.env[an], it, elem, meth)
             out.append(s)
